@@ -119,14 +119,20 @@ def r2(chk, prog, m):
     chk.touched(f)
     P = Paths(f, prog)
     cfg = cfg_of(f)
-    # strcmp(op, literal) sites
+    # strcmp(op, literal) sites (a bounded comparison counts only when the bound covers the terminator)
     table = {}
+    prefix_sites = []
     for i in f.instrs():
-        if i.op == "call" and i.callee == "strcmp":
+        if i.op == "call" and i.callee in ("strcmp", "strncmp"):
             lit = _member_name(f, i)
             if not lit:
                 continue
             name = eval(lit)
+            if i.callee == "strncmp":
+                nb = i.ops[2].v if len(i.ops) > 2 and i.ops[2].kind == "int" else None
+                if nb is None or nb <= len(name):
+                    prefix_sites.append((i, name, nb))
+                    continue
             # branch on the result == 0
             eq_block = None
             for u in cfg.users(i.res):
@@ -139,7 +145,13 @@ def r2(chk, prog, m):
     names = sorted(table)
     n = 0
     n += 1
-    if sorted(names) == sorted(RFC_OPS):
+    if prefix_sites:
+        i, name, nb = prefix_sites[0]
+        chk.refuted(rid, f.name, "operation names", i.locstr(),
+                    "the operation name is compared with %r over %s bytes only: every longer name with that prefix (e.g. %r) is executed "
+                    "as %r instead of being rejected as an unknown operation" % (name, nb if nb is not None else "a variable number of", name + "x", name),
+                    {"sites": [x.locstr() for x, _, _ in prefix_sites]})
+    elif sorted(names) == sorted(RFC_OPS):
         chk.proven(rid, f.name, "operation names", f.entry.instrs[0].locstr(), "compared names are exactly %s" % sorted(RFC_OPS))
     else:
         chk.refuted(rid, f.name, "operation names", f.entry.instrs[0].locstr(),
